@@ -181,6 +181,29 @@ func (x *Extractor) Paths(fn *ssa.Function, opts PathOpts) ([]*Path, error) {
 	return out, nil
 }
 
+// PathsBound enumerates the paths of fn with its parameters bound to the
+// given expressions (the arguments of a call that is not executed in line,
+// such as a deferred call).
+func (x *Extractor) PathsBound(fn *ssa.Function, args []*Expr, opts PathOpts) ([]*Path, error) {
+	if opts.MaxPaths == 0 {
+		opts.MaxPaths = 20000
+	}
+	pe := &pathEnum{x: x, opts: opts}
+	c := &seeCtx{x: x, params: map[*ssa.Parameter]*Expr{}, fvs: map[*ssa.FreeVar]*Expr{},
+		stack: map[*ssa.Function]bool{fn: true}, active: map[ssa.Value]bool{}, memo: map[ssa.Value]*Expr{}, fn: fn}
+	for i, p := range fn.Params {
+		if i < len(args) && args[i] != nil {
+			c.params[p] = args[i]
+		}
+	}
+	var out []*Path
+	pe.walk(c, fn, func(p *Path) { out = append(out, p) })
+	if pe.over {
+		return out, ErrTooManyPaths
+	}
+	return out, nil
+}
+
 type pstate struct {
 	atoms   []PathAtom
 	blocks  []*ssa.BasicBlock
